@@ -142,4 +142,35 @@ def refresh (listing : List (String × List String)) (answered : String → Bool
         | none => a ++ [((cg.1, g), GroupRec.fresh)]) kept
     else acc) s1
 
+
+/-! ### the configuration phase (coordinator.go `Configure`): which settings a module ends up with -/
+
+/-- one `[notifier.<name>]` table: what the operator wrote (`none` = key absent) -/
+structure ModSpec where
+  name         : String
+  threshold    : Option Int
+  interval     : Option Int
+  sendInterval : Option Int
+  sendOnce     : Option Bool
+  sendClose    : Option Bool
+  allow        : Option String
+  deny         : Option String
+  deriving Repr, DecidableEq, Inhabited
+
+def ModSpec.intervalEff (m : ModSpec) : Int := m.interval.getD 60
+
+/-- what `notifyModule` reads for the module after `Configure`: threshold 2 and interval 60 unless set,
+    send-interval = the module's interval unless set, send-once / send-close off unless set -/
+def ModSpec.cfg (m : ModSpec) : ModuleCfg :=
+  { name := m.name, threshold := m.threshold.getD 2, sendInterval := m.sendInterval.getD m.intervalEff,
+    sendOnce := m.sendOnce.getD false, sendClose := m.sendClose.getD false }
+
+/-- the lists the module is constructed with: its own, nothing else -/
+def ModSpec.lists (m : ModSpec) : Option String × Option String := (m.allow, m.deny)
+
+/-- the pace of the evaluation requests: the shortest module interval (ten years without modules) -/
+def minIntervalOf : List ModSpec → Int
+  | [] => 310536000
+  | m :: ms => ms.foldl (fun acc m' => min acc m'.intervalEff) m.intervalEff
+
 end Burrow.Notifier
